@@ -1,8 +1,14 @@
 package main
 
 import (
+	"bytes"
+	"fmt"
 	"go/ast"
+	"go/printer"
 	"go/token"
+	"path/filepath"
+	"sort"
+	"strings"
 )
 
 // C12 lock discipline of net/ntske.Provider (the model treats the provider as a sequential
@@ -100,5 +106,357 @@ func init() {
 				broken("C12: function %s not found in net/ntske", n)
 			}
 		}
+	})
+}
+
+// ---------------------------------------------------------------------------------------------
+// C12 key USE in core/server. The provider's contract (Props/C12.lean) speaks about the key
+// `Current()` returns at the instant it is called and about `Get(id)`; whether a cookie is
+// sealed under a fresh key also depends on how the three users obtain the key they seal with:
+// runIPServer, runSCIONServer (NTS branch of the receive loop) and newNTSKEMsg. Exported (and
+// pinned by C12_pin_keyUse_* in Props/C12.lean) per user:
+//
+//   - for every `….EncryptWithNonce(K.Value, K.ID)`: the complete provenance of K — every
+//     definition of and assignment to K (followed through plain identifier copies), each with
+//     its right-hand side and whether it lies inside the receive loop (`@loop`, i.e. is executed
+//     in the same iteration) or outside (`@func`);
+//   - for every `E.Decrypt(K.Value)`: the provenance of K, and whether the second result of the
+//     defining `provider.Get(…)` is tested by the directly following `if !ok { …; continue }`;
+//
+// and for the package: every method called on a *ntske.Provider, per function, every other use
+// of such a value (aliasing), and package-level variables holding keys or providers.
+// ---------------------------------------------------------------------------------------------
+
+func c12Text(fset *token.FileSet, n ast.Node) string {
+	var b bytes.Buffer
+	printer.Fprint(&b, fset, n)
+	return strings.Join(strings.Fields(b.String()), "")
+}
+
+type c12Def struct {
+	rhs   string
+	ident *ast.Ident // non-nil if the right-hand side is a plain identifier
+	pos   token.Pos
+	stmt  ast.Stmt
+}
+
+// c12Defs collects every definition of / assignment to the variable obj in body.
+func c12Defs(fset *token.FileSet, body *ast.BlockStmt, obj *ast.Object) []c12Def {
+	var out []c12Def
+	rhsOf := func(lhsIdx, nLhs int, rhs []ast.Expr) (string, *ast.Ident) {
+		switch {
+		case len(rhs) == nLhs:
+			id, _ := rhs[lhsIdx].(*ast.Ident)
+			return c12Text(fset, rhs[lhsIdx]), id
+		case len(rhs) == 1:
+			return fmt.Sprintf("%s#%d", c12Text(fset, rhs[0]), lhsIdx), nil
+		case len(rhs) == 0:
+			return "", nil
+		}
+		return "?", nil
+	}
+	ast.Inspect(body, func(n ast.Node) bool {
+		switch x := n.(type) {
+		case *ast.AssignStmt:
+			for i, l := range x.Lhs {
+				if id, ok := l.(*ast.Ident); ok && id.Obj == obj {
+					r, rid := rhsOf(i, len(x.Lhs), x.Rhs)
+					if x.Tok != token.DEFINE && x.Tok != token.ASSIGN {
+						r = x.Tok.String() + r
+					}
+					out = append(out, c12Def{rhs: r, ident: rid, pos: x.Pos(), stmt: x})
+				}
+			}
+		case *ast.ValueSpec:
+			for i, id := range x.Names {
+				if id.Obj == obj {
+					r, rid := rhsOf(i, len(x.Names), x.Values)
+					if len(x.Values) == 0 {
+						r = "zero(" + c12Text(fset, x.Type) + ")"
+					}
+					out = append(out, c12Def{rhs: r, ident: rid, pos: x.Pos()})
+				}
+			}
+		case *ast.RangeStmt:
+			for _, l := range []ast.Expr{x.Key, x.Value} {
+				if id, ok := l.(*ast.Ident); ok && id.Obj == obj {
+					out = append(out, c12Def{rhs: "range(" + c12Text(fset, x.X) + ")", pos: x.Pos()})
+				}
+			}
+		case *ast.UnaryExpr:
+			if id, ok := x.X.(*ast.Ident); ok && x.Op == token.AND && id.Obj == obj {
+				out = append(out, c12Def{rhs: "address-taken", pos: x.Pos()})
+			}
+		}
+		return true
+	})
+	return out
+}
+
+// c12Provenance renders where the value of identifier id comes from.
+func c12Provenance(fset *token.FileSet, fd *ast.FuncDecl, loop *ast.ForStmt, id *ast.Ident, depth int) string {
+	if id.Obj == nil {
+		return id.Name + "<-unresolved"
+	}
+	if depth > 6 {
+		return id.Name + "<-…"
+	}
+	var parts []string
+	defs := c12Defs(fset, fd.Body, id.Obj)
+	if len(defs) == 0 {
+		parts = append(parts, "parameter-or-outer")
+	}
+	for _, d := range defs {
+		where := "@func"
+		if loop != nil && d.pos >= loop.Body.Pos() && d.pos < loop.Body.End() {
+			where = "@loop"
+		}
+		s := d.rhs + where
+		if d.ident != nil && d.ident.Obj != nil && d.ident.Obj != id.Obj {
+			s += "{" + c12Provenance(fset, fd, loop, d.ident, depth+1) + "}"
+		}
+		parts = append(parts, s)
+	}
+	return id.Name + "<-" + strings.Join(parts, "|")
+}
+
+// c12ReceiveLoop returns the outermost `for { … }` of fd (nil if there is none).
+func c12ReceiveLoop(fd *ast.FuncDecl) *ast.ForStmt {
+	var loop *ast.ForStmt
+	ast.Inspect(fd.Body, func(n ast.Node) bool {
+		if loop != nil {
+			return false
+		}
+		if f, ok := n.(*ast.ForStmt); ok && f.Cond == nil && f.Init == nil && f.Post == nil {
+			loop = f
+			return false
+		}
+		return true
+	})
+	return loop
+}
+
+// c12OkChecked: the statement directly after `K, ok := provider.Get(…)` is
+// `if !ok { …; continue }` (or `…; return`).
+func c12OkChecked(fd *ast.FuncDecl, def ast.Stmt) string {
+	as, ok := def.(*ast.AssignStmt)
+	if !ok || len(as.Lhs) != 2 {
+		return "ok-not-bound"
+	}
+	okID, _ := as.Lhs[1].(*ast.Ident)
+	if okID == nil || okID.Name == "_" {
+		return "ok-discarded"
+	}
+	res := "ok-unchecked"
+	ast.Inspect(fd.Body, func(n ast.Node) bool {
+		blk, isBlk := n.(*ast.BlockStmt)
+		if !isBlk {
+			return true
+		}
+		for i, st := range blk.List {
+			if st != def || i+1 >= len(blk.List) {
+				continue
+			}
+			ifs, isIf := blk.List[i+1].(*ast.IfStmt)
+			if !isIf || ifs.Init != nil || ifs.Else != nil || len(ifs.Body.List) == 0 {
+				continue
+			}
+			u, isNot := ifs.Cond.(*ast.UnaryExpr)
+			if !isNot || u.Op != token.NOT {
+				continue
+			}
+			if c, isID := u.X.(*ast.Ident); !isID || c.Obj != okID.Obj {
+				continue
+			}
+			switch last := ifs.Body.List[len(ifs.Body.List)-1].(type) {
+			case *ast.BranchStmt:
+				if last.Tok == token.CONTINUE && last.Label == nil {
+					res = "ok-checked"
+				}
+			case *ast.ReturnStmt:
+				res = "ok-checked"
+			}
+		}
+		return true
+	})
+	return res
+}
+
+func c12KeyUse(fset *token.FileSet, fd *ast.FuncDecl) string {
+	loop := c12ReceiveLoop(fd)
+	var opens, seals []string
+	selOf := func(e ast.Expr, field string) *ast.Ident {
+		s, ok := e.(*ast.SelectorExpr)
+		if !ok || s.Sel.Name != field {
+			return nil
+		}
+		id, _ := s.X.(*ast.Ident)
+		return id
+	}
+	inLoop := func(p token.Pos) string {
+		if loop != nil && p >= loop.Body.Pos() && p < loop.Body.End() {
+			return "@loop"
+		}
+		return "@func"
+	}
+	ast.Inspect(fd.Body, func(n ast.Node) bool {
+		call, ok := n.(*ast.CallExpr)
+		if !ok {
+			return true
+		}
+		se, ok := call.Fun.(*ast.SelectorExpr)
+		if !ok {
+			return true
+		}
+		switch se.Sel.Name {
+		case "EncryptWithNonce", "Encrypt":
+			if len(call.Args) != 2 {
+				seals = append(seals, "seal"+inLoop(call.Pos())+":"+c12Text(fset, call))
+				return true
+			}
+			k, kid := selOf(call.Args[0], "Value"), selOf(call.Args[1], "ID")
+			if k == nil || kid == nil || k.Obj == nil || k.Obj != kid.Obj {
+				seals = append(seals, "seal"+inLoop(call.Pos())+":"+c12Text(fset, call))
+				return true
+			}
+			seals = append(seals, "seal"+inLoop(call.Pos())+":"+c12Provenance(fset, fd, loop, k, 0))
+		case "Decrypt":
+			recv := c12Text(fset, se.X)
+			if len(call.Args) != 1 {
+				opens = append(opens, "open"+inLoop(call.Pos())+":"+c12Text(fset, call))
+				return true
+			}
+			k := selOf(call.Args[0], "Value")
+			if k == nil || k.Obj == nil {
+				opens = append(opens, "open"+inLoop(call.Pos())+":"+c12Text(fset, call))
+				return true
+			}
+			prov := c12Provenance(fset, fd, loop, k, 0)
+			prov = strings.ReplaceAll(prov, recv+".ID", "<cookie>.ID")
+			chk := "ok-unchecked"
+			if defs := c12Defs(fset, fd.Body, k.Obj); len(defs) == 1 && defs[0].stmt != nil {
+				chk = c12OkChecked(fd, defs[0].stmt)
+			}
+			opens = append(opens, "open"+inLoop(call.Pos())+":"+prov+","+chk)
+		}
+		return true
+	})
+	return strings.Join(append(opens, seals...), ";")
+}
+
+func init() {
+	registerLocals("core/server", func(files []*ast.File, fset *token.FileSet) []string {
+		var out []string
+		for _, fn := range []string{"runIPServer", "runSCIONServer", "newNTSKEMsg"} {
+			fd := findFunc(files, fn)
+			if fd == nil || fd.Body == nil {
+				broken("C12: core/server function %s not found (key use)", fn)
+				continue
+			}
+			out = append(out, fmt.Sprintf("def c12KeyUse_%s : String := %s", fn, leanString(c12KeyUse(fset, fd))))
+		}
+		// every use of a *ntske.Provider value in the package
+		isProviderType := func(e ast.Expr) bool {
+			t := c12Text(fset, e)
+			return t == "*ntske.Provider" || t == "ntske.Provider"
+		}
+		mentionsKeyOrProvider := func(e ast.Expr) bool {
+			if e == nil {
+				return false
+			}
+			t := c12Text(fset, e)
+			return strings.Contains(t, "ntske.Key") || strings.Contains(t, "ntske.Provider")
+		}
+		var uses []string
+		for _, f := range files {
+			name := filepath.Base(fset.Position(f.Pos()).Filename)
+			if strings.HasSuffix(name, "_test.go") || strings.HasPrefix(name, "verif_") {
+				continue
+			}
+			for _, d := range f.Decls {
+				switch x := d.(type) {
+				case *ast.GenDecl:
+					if x.Tok != token.VAR {
+						continue
+					}
+					for _, sp := range x.Specs {
+						vs := sp.(*ast.ValueSpec)
+						hit := mentionsKeyOrProvider(vs.Type)
+						for _, v := range vs.Values {
+							hit = hit || mentionsKeyOrProvider(v)
+						}
+						if hit {
+							for _, n := range vs.Names {
+								uses = append(uses, "pkgvar:"+n.Name)
+							}
+						}
+					}
+				case *ast.FuncDecl:
+					if x.Body == nil {
+						continue
+					}
+					provs := map[*ast.Object]bool{}
+					if x.Type.Params != nil {
+						for _, p := range x.Type.Params.List {
+							if isProviderType(p.Type) {
+								for _, n := range p.Names {
+									provs[n.Obj] = true
+								}
+							}
+						}
+					}
+					// local variables declared with a provider type or initialised from a provider
+					ast.Inspect(x.Body, func(n ast.Node) bool {
+						if vs, ok := n.(*ast.ValueSpec); ok && vs.Type != nil && isProviderType(vs.Type) {
+							for _, id := range vs.Names {
+								provs[id.Obj] = true
+								uses = append(uses, x.Name.Name+":local-provider:"+id.Name)
+							}
+						}
+						return true
+					})
+					if len(provs) == 0 {
+						continue
+					}
+					accounted := map[*ast.Ident]bool{}
+					ast.Inspect(x.Body, func(n ast.Node) bool {
+						call, ok := n.(*ast.CallExpr)
+						if !ok {
+							return true
+						}
+						if se, ok := call.Fun.(*ast.SelectorExpr); ok {
+							if id, ok := se.X.(*ast.Ident); ok && provs[id.Obj] {
+								accounted[id] = true
+								uses = append(uses, x.Name.Name+":"+se.Sel.Name)
+							}
+						}
+						for _, a := range call.Args {
+							if id, ok := a.(*ast.Ident); ok && provs[id.Obj] {
+								accounted[id] = true
+								callee := c12Text(fset, call.Fun)
+								uses = append(uses, x.Name.Name+":pass:"+callee)
+							}
+						}
+						return true
+					})
+					ast.Inspect(x.Body, func(n ast.Node) bool {
+						if id, ok := n.(*ast.Ident); ok && provs[id.Obj] && !accounted[id] {
+							uses = append(uses, x.Name.Name+":other-use:"+id.Name)
+						}
+						return true
+					})
+				}
+			}
+		}
+		sort.Strings(uses)
+		// collapse duplicates
+		var uniq []string
+		for i, u := range uses {
+			if i == 0 || uses[i-1] != u {
+				uniq = append(uniq, u)
+			}
+		}
+		out = append(out, fmt.Sprintf("def c12ProviderUses : String := %s", leanString(strings.Join(uniq, ";"))))
+		return out
 	})
 }
